@@ -49,6 +49,11 @@ func (e *Engine) registerIntrinsics() {
 		alpha := mustConstStr(c.args[2])
 		s := c.st.newSymStr("s_"+name, cap)
 		c.st.assume(c.st.sAllBytes(s, func(b *Term) *Term { return inSet(b, alpha) }))
+		var al alphabet
+		for i := 0; i < len(alpha); i++ {
+			al[alpha[i]] = true
+		}
+		s.p[0].alpha = &al
 		c.st.inputs = append(c.st.inputs, InputRec{Name: name, Kind: "string", S: s})
 		return c.ret(s)
 	})
